@@ -668,3 +668,14 @@ package gorm
 //@ immutable Association.Unscope
 //@   writers gorm.(*Association).Unscoped gorm.(*DB).Association
 //@   tags C12
+
+//@ # ---------- C01: placeholders of an already rendered text are rewritten one per bound value ----------
+//@ # A raw sub-query (AddVar, case *DB) and the ON conditions of a relation join (genJoinClause) are rendered once,
+//@ # then every dialect placeholder is turned back into "?" before the text is re-rendered into the parent. Each bound
+//@ # value rewrites exactly one placeholder (the first remaining one): "$1" is a prefix of "$10".
+//@ site placeholder-rewritten-once-per-value
+//@   match call strings.Replace
+//@   in gorm.(*Statement).AddVar callbacks.BuildQuerySQL$*
+//@   min-sites 2
+//@   assert one-occurrence-per-bound-value: arg3 == 1 [C01]
+//@   assert rewritten-to-the-neutral-placeholder: arg2 == "?" [C01]
